@@ -117,7 +117,7 @@ contract("find._extract_id_citation",
     requires={"part": "PART(words, ghost.text, ghost.offs)", "tok": TOK_AT.format(cls="IdToken"), "lemmas": "regex_lemmas()",
               "groups": "typed(words[index], 'obj<Token>').groups is not None"},       # Token.from_match stores m.groupdict()
     ensures={"made": "result is not None and result.token is words[index] and result.index == index",
-             "wf": "cit_wf(result) and alive(result)",
+             "wf": "cit_wf(result) and alive(result) and alive(result.metadata) and isinstance(result, IdCitation)",
              "spans": "SPANS(result, ghost.text)", "pin_in": "PIN_IN(result, ghost.text)"})
 
 contract("find._extract_supra_citation",
@@ -125,7 +125,7 @@ contract("find._extract_supra_citation",
     requires={"part": "PART(words, ghost.text, ghost.offs)", "tok": TOK_AT.format(cls="SupraToken"), "lemmas": "regex_lemmas()",
               "groups": "typed(words[index], 'obj<Token>').groups is not None"},       # Token.from_match stores m.groupdict()
     ensures={"made": "result is not None and result.token is words[index] and result.index == index",
-             "wf": "cit_wf(result) and alive(result)",
+             "wf": "cit_wf(result) and alive(result) and alive(result.metadata) and isinstance(result, SupraCitation)",
              "spans": "SPANS(result, ghost.text)", "pin_in": "PIN_IN(result, ghost.text)"})
 
 contract("find._extract_shortform_citation",
@@ -137,11 +137,12 @@ contract("find._extract_shortform_citation",
                             "and typed(words[index], 'obj<CitationToken>').groups['page'] is not None",
               "page_is_suffix": "suffix_of(typed(words[index], 'obj<CitationToken>').groups['page'], str(words[index]))"},
     ensures={"made": "result is not None and result.token is words[index] and result.index == index",
-             "wf": "cit_wf(result) and alive(result)",
+             "wf": "cit_wf(result) and alive(result) and alive(result.metadata) and isinstance(result, ShortCaseCitation)",
              "spans": "SPANS(result, ghost.text)", "pin_in": "PIN_IN(result, ghost.text)"})
 
 contract("find._extract_full_citation",
     types={"words": WORDS_T, "index": "int"}, returns="obj<FullCitation>", noraise=True, prop="C02", ghost=GHOST_DOC,
+    fresh_paths=["result", "result.metadata"],     # the citation and its Metadata object are allocated here (the caller mutates them: is_parallel_citation)
     requires={"part": "PART(words, ghost.text, ghost.offs)", "nonl": "NONL(words)", "tok": TOK_AT.format(cls="CitationToken"), "lemmas": "regex_lemmas()",
               "editions": EDITIONS_WF,
               # data invariant of the shipped extractors: every edition's reporter source is one of the three databases
@@ -151,7 +152,7 @@ contract("find._extract_full_citation",
               "stopword_groups": "forall(lambda i: implies(0 <= i and i < len(words) and isinstance(words[i], StopWordToken), "
                                  "typed(words[i], 'obj<StopWordToken>').groups is not None and 'stop_word' in typed(words[i], 'obj<StopWordToken>').groups))"},
     ensures={"made": "result is not None and result.token is words[index] and result.index == index",
-             "wf": "cit_wf(result) and alive(result)",
+             "wf": "cit_wf(result) and alive(result) and alive(result.metadata) and isinstance(result, FullCitation)",
              "spans": "SPANS(result, ghost.text)",
              "year_sound": _YEAR_OF("typed(result, 'obj<ResourceCitation>')").replace("typed(result, 'obj<ResourceCitation>').metadata", "result.metadata")},
     props={"year_sound": "C18"})
